@@ -467,6 +467,15 @@ func (w Wrapper) At(x, y int) color.Color { return w.I.At(x, y) }
 func (w Wrapper) Bounds() image.Rectangle { return w.I.Bounds() }
 func (w Wrapper) ColorModel() color.Model { return w.I.ColorModel() }
 
+// nrgba64AlphaLow: the low byte of a 16-bit alpha whose 8-bit reading is a. Mostly the replicated byte; sometimes any
+// byte (an "almost opaque" 0xFF37 still reads as 255 in 8 bits).
+func nrgba64AlphaLow(r *rand.Rand, a uint8) uint8 {
+	if r.Intn(3) == 0 {
+		return uint8(r.Intn(256))
+	}
+	return a
+}
+
 // GoTypes lists the Go image types AsType can produce.
 var GoTypes = []string{"NRGBA", "RGBA", "NRGBA64", "RGBA64", "Gray", "Gray16", "Paletted", "YCbCr", "CMYK", "Alpha", "Wrapper", "Alpha16", "NYCbCrA"}
 
@@ -494,7 +503,7 @@ func AsType(r *rand.Rand, m *image.NRGBA, typ string) image.Image {
 			for x := b.Min.X; x < b.Max.X; x++ {
 				c := m.NRGBAAt(x, y)
 				// low bytes deliberately not replicated: 16->8 conversion must take the high byte
-				d.SetNRGBA64(x, y, color.NRGBA64{uint16(c.R)<<8 | uint16(r.Intn(256)), uint16(c.G)<<8 | uint16(r.Intn(256)), uint16(c.B)<<8 | uint16(r.Intn(256)), uint16(c.A)<<8 | uint16(c.A)})
+				d.SetNRGBA64(x, y, color.NRGBA64{uint16(c.R)<<8 | uint16(r.Intn(256)), uint16(c.G)<<8 | uint16(r.Intn(256)), uint16(c.B)<<8 | uint16(r.Intn(256)), uint16(c.A)<<8 | uint16(nrgba64AlphaLow(r, c.A))})
 			}
 		}
 		return d
